@@ -1,35 +1,41 @@
 import Csverif.Proofs.Persist
-/- helper lemmas for Props/C08.lean, part 3: `storage_commit` / `_storage_update` case by case, and the
-   invariant that ties the rows of the tag to the entries. -/
+/- helper lemmas for Props/C08.lean, part 3: `storage_commit` / `_storage_update` case by case, the
+   invariant that ties the rows of the tag to the entries, and the loader. -/
 namespace CS.Persist
 open CS.Codec CS.Storage
 set_option linter.unusedSimpArgs false
+set_option linter.unusedVariables false
 
 theorem pure_run {α} (r : α) (a : St) : (pure r : M α) a = (.ok r, a) := rfl
 
 /-- the entry the model reads at index `i` -/
 abbrev St.at (a : St) (i : Nat) : Entry := a.ents[i]?.getD placeholder
 
+/-- the state after `_storage_update` deleted the row of the trash entry `i` and forgot its id -/
+def St.deleted (a : St) (t : Sqlite.Table Val) (i sid : Nat) : St :=
+  { a with store := .sqlite (Sqlite.step t (.delete tag (some sid))).1,
+           ents := a.ents.modify i fun x => { x with storageId := none } }
+
 theorem su_some_trash (a : St) (t : Sqlite.Table Val) (hs : a.store = .sqlite t) (i sid : Nat)
-    (he : (a.at i).storageId = some sid) (hg : i ∉ a.gone) (ht : (a.at i).isTrash = true) :
-    storageUpdate i a = (.ok (), { a with store := .sqlite (Sqlite.step t (.delete tag (some sid))).1, gone := sadd a.gone i }) := by
-  simp [storageUpdate, bind_run, getEnt, getSt, modSt, storeOp, Backend.step, hs, raise, he, ht, hg, pure_run]
+    (he : (a.at i).storageId = some sid) (ht : (a.at i).isTrash = true) :
+    storageUpdate i a = (.ok (), a.deleted t i sid) := by
+  simp [storageUpdate, bind_run, getEnt, modSt, storeOp, Backend.step, hs, he, ht, pure_run, rawEnt, St.deleted]
 
 theorem su_some_rowerr (a : St) (i sid : Nat) (err : Err)
-    (he : (a.at i).storageId = some sid) (hg : i ∉ a.gone) (ht : (a.at i).isTrash = false)
+    (he : (a.at i).storageId = some sid) (ht : (a.at i).isTrash = false)
     (hr : (a.at i).row = .error err) :
     storageUpdate i a = (.error (.py err), a) := by
-  simp [storageUpdate, bind_run, getEnt, getSt, modSt, storeOp, raise, he, ht, hg, hr, pure_run]
+  simp [storageUpdate, bind_run, getEnt, modSt, storeOp, raise, he, ht, hr, pure_run]
 
 theorem su_some_update (a : St) (t : Sqlite.Table Val) (hs : a.store = .sqlite t) (i sid : Nat) (row : Val)
-    (he : (a.at i).storageId = some sid) (hg : i ∉ a.gone) (ht : (a.at i).isTrash = false)
+    (he : (a.at i).storageId = some sid) (ht : (a.at i).isTrash = false)
     (hr : (a.at i).row = .ok row) :
     storageUpdate i a =
       ((match (Sqlite.step t (.update tag row (some sid))).2 with
         | .valueError => .error (.py .value)
         | _ => .ok ()),
        { a with store := .sqlite (Sqlite.step t (.update tag row (some sid))).1 }) := by
-  simp [storageUpdate, bind_run, getEnt, getSt, modSt, storeOp, Backend.step, hs, raise, he, ht, hg, hr, pure_run]
+  simp [storageUpdate, bind_run, getEnt, modSt, storeOp, Backend.step, hs, raise, he, ht, hr, pure_run]
   split <;> first | rfl | simp_all [pure_run, raise]
 
 theorem su_none_trash (a : St) (i : Nat) (he : (a.at i).storageId = none) (ht : (a.at i).isTrash = true) :
@@ -41,74 +47,71 @@ theorem su_none_rowerr (a : St) (i : Nat) (err : Err) (he : (a.at i).storageId =
     storageUpdate i a = (.error (.py err), a) := by
   simp [storageUpdate, bind_run, getEnt, he, ht, hr, raise]
 
+/-- the state after `_storage_update` created a row for entry `i` -/
+def St.created (a : St) (t : Sqlite.Table Val) (i : Nat) (row : Val) : St :=
+  { a with store := .sqlite (t ++ [{ id := Sqlite.maxId t + 1, tag := tag, val := row }]),
+           dirty := sadd a.dirty i, silent := sdiscard a.silent i,
+           ents := a.ents.modify i fun x => { x with storageId := some (Sqlite.maxId t + 1) } }
+
 theorem su_none_create (a : St) (t : Sqlite.Table Val) (hs : a.store = .sqlite t) (i : Nat) (row : Val)
     (he : (a.at i).storageId = none) (ht : (a.at i).isTrash = false) (hr : (a.at i).row = .ok row) :
-    storageUpdate i a = (.ok (),
-      { a with store := .sqlite (t ++ [{ id := Sqlite.maxId t + 1, tag := tag, val := row }]),
-               dirty := sadd a.dirty i, silent := sdiscard a.silent i,
-               ents := a.ents.modify i fun x => { x with storageId := some (Sqlite.maxId t + 1) } }) := by
-  simp [storageUpdate, bind_run, getEnt, modSt, storeOp, Backend.step, Sqlite.step, hs, he, ht, hr, pure_run, markDirty, rawEnt]
+    storageUpdate i a = (.ok (), a.created t i row) := by
+  simp [storageUpdate, bind_run, getEnt, modSt, storeOp, Backend.step, Sqlite.step, hs, he, ht, hr, pure_run, markDirty, rawEnt,
+    St.created]
 
-theorem su_touched (a : St) (t : Sqlite.Table Val) (hs : a.store = .sqlite t) (i sid : Nat)
-    (he : (a.at i).storageId = some sid) (hg : i ∈ a.gone) :
-    (storageUpdate i a).2.goneTouched = true ∧ (storageUpdate i a).2.dirty = a.dirty ∧
-    ∃ t', (storageUpdate i a).2.store = .sqlite t' := by
-  simp [storageUpdate, bind_run, getEnt, getSt, modSt, he, hg, storeOp, raise, pure_run]
-  split
-  · simp [bind_run, storeOp, modSt, Backend.step, hs]
-  · rcases (a.ents[i]?.getD placeholder).row with err | row
-    · exact ⟨rfl, rfl, t, hs⟩
-    · simp only [bind_run, storeOp, Backend.step, hs]
-      rcases (Sqlite.step t (Op.update tag row (some sid))).snd with _ | _ | _ | _ | _ | _ <;> exact ⟨rfl, rfl, _, rfl⟩
+/-- `serialize` can only fail in `msgpack.dumps`, with OverflowError -/
+theorem row_error (e : Entry) (err : Err) (h : e.row = .error err) : err = .overflow := by
+  unfold Entry.row dumps at h
+  split at h
+  · cases h
+  · injection h with h; exact h.symm
 
 /-! ### the invariant -/
 
 def sidOf (st : St) (i : Nat) : Option (Option Nat) := (st.ents[i]?).map Entry.storageId
 
-/-- entry `i` is exactly what storage holds for it: its row is its current serialisation; a trash
-    entry has no row (either it never had one, or `_storage_update` deleted it: `gone`) -/
-def Stored (t : Sqlite.Table Val) (gone : List Nat) (i : Nat) (e : Entry) : Prop :=
-  if i ∈ gone then e.isTrash = true
-  else match e.storageId with
-    | none => e.isTrash = true
-    | some k => e.isTrash = false ∧ ∃ row, e.row = .ok row ∧ Sqlite.abs t tag k = some row
+/-- entry `e` is exactly what storage holds for it: a trash entry has no storage id (it never had a
+    row, or `_storage_update` deleted the row and forgot the id), a live one has its id and the row
+    under that id is its current serialisation -/
+def Stored (t : Sqlite.Table Val) (e : Entry) : Prop :=
+  match e.storageId with
+  | none => e.isTrash = true
+  | some k => e.isTrash = false ∧ ∃ row, e.row = .ok row ∧ Sqlite.abs t tag k = some row
 
-/-- row ownership: every entry that has a storage id and was not deleted owns an existing row, no
-    two such entries share one, and every row of the tag has such an owner -/
+/-- row ownership: every entry that has a storage id owns an existing row, no two entries share
+    one, and every row of the tag has an owner -/
 structure Core (t : Sqlite.Table Val) (st : St) : Prop where
   tinv : Sqlite.Inv t
-  owner : ∀ i k, sidOf st i = some (some k) → i ∉ st.gone → Sqlite.abs t tag k ≠ none
-  uniq : ∀ i j k, sidOf st i = some (some k) → sidOf st j = some (some k) → i ∉ st.gone → j ∉ st.gone → i = j
-  nostale : ∀ k, Sqlite.abs t tag k ≠ none → ∃ i, sidOf st i = some (some k) ∧ i ∉ st.gone
-  goneSid : ∀ i ∈ st.gone, ∃ k, sidOf st i = some (some k)
+  owner : ∀ i k, sidOf st i = some (some k) → Sqlite.abs t tag k ≠ none
+  uniq : ∀ i j k, sidOf st i = some (some k) → sidOf st j = some (some k) → i = j
+  nostale : ∀ k, Sqlite.abs t tag k ≠ none → ∃ i, sidOf st i = some (some k)
+
+/-- what the invariant says, for a table `t` -/
+def InvBody (done : List Nat) (t : Sqlite.Table Val) (st : St) : Prop :=
+  st.store = .sqlite t ∧ Core t st ∧
+    ∀ i e, st.ents[i]? = some e → (i ∉ st.dirty ∨ i ∈ done) → i ∉ st.silent → Stored t e
 
 /-- the invariant, during a commit that has already written the dirty entries in `done` -/
-def InvP (done : List Nat) (st : St) : Prop :=
-  ∃ t, st.store = .sqlite t ∧ (st.goneTouched = false → Core t st ∧
-    ∀ i e, st.ents[i]? = some e → (i ∉ st.dirty ∨ i ∈ done) → i ∉ st.silent → Stored t st.gone i e)
+def InvP (done : List Nat) (st : St) : Prop := ∃ t, InvBody done t st
 
 /-- the invariant between operations -/
 def Inv (st : St) : Prop := InvP [] st
 
 theorem Inv_init : Inv (St.init (.sqlite [])) := by
-  refine ⟨[], rfl, fun _ => ⟨⟨by simp [Sqlite.Inv], ?_, ?_, ?_, ?_⟩, ?_⟩⟩
+  refine ⟨[], rfl, ⟨by simp [Sqlite.Inv], ?_, ?_, ?_⟩, ?_⟩
   · intro i k h; simp [sidOf, St.init] at h
   · intro i j k h; simp [sidOf, St.init] at h
   · intro k h; simp [Sqlite.abs] at h
-  · intro i h; simp [St.init] at h
   · intro i e h; simp [St.init] at h
 
 /-- hooks preserve the invariant: whatever they change is covered -/
 theorem Inv_of_LeX {a b : St} (h : LeX none a b) (ha : Inv a) : Inv b := by
-  obtain ⟨t, hs, hrest⟩ := ha
-  refine ⟨t, h.store.trans hs, fun hb => ?_⟩
-  obtain ⟨hc, hst⟩ := hrest (h.touched ▸ hb)
+  obtain ⟨t, hs, hc, hst⟩ := ha
   have hsid : ∀ i, sidOf b i = sidOf a i := h.sid
-  refine ⟨⟨hc.tinv, ?_, ?_, ?_, ?_⟩, ?_⟩
-  · intro i k hk hg; rw [hsid] at hk; rw [h.gone] at hg; exact hc.owner i k hk hg
-  · intro i j k hi hj gi gj; rw [hsid] at hi hj; rw [h.gone] at gi gj; exact hc.uniq i j k hi hj gi gj
-  · intro k hk; obtain ⟨i, hi, gi⟩ := hc.nostale k hk; exact ⟨i, by rw [hsid]; exact hi, by rw [h.gone]; exact gi⟩
-  · intro i hi; rw [h.gone] at hi; obtain ⟨k, hk⟩ := hc.goneSid i hi; exact ⟨k, by rw [hsid]; exact hk⟩
+  refine ⟨t, h.store.trans hs, ⟨hc.tinv, ?_, ?_, ?_⟩, ?_⟩
+  · intro i k hk; rw [hsid] at hk; exact hc.owner i k hk
+  · intro i j k hi hj; rw [hsid] at hi hj; exact hc.uniq i j k hi hj
+  · intro k hk; obtain ⟨i, hi⟩ := hc.nostale k hk; exact ⟨i, by rw [hsid]; exact hi⟩
   · intro i e he hd hsil
     have hnc : ¬ Covered b i := by
       rintro (g | g)
@@ -118,28 +121,21 @@ theorem Inv_of_LeX {a b : St} (h : LeX none a b) (ha : Inv a) : Inv b := by
       · exact hsil g
     rcases h.ents i with g | g | g
     · have hna : ¬ Covered a i := fun c => hnc (h.cov i c)
-      rw [h.gone]
       exact hst i e (g ▸ he) (Or.inl (fun c => hna (Or.inl c))) (fun c => hna (Or.inr c))
     · exact absurd g hnc
     · cases g
 
-set_option linter.unusedVariables false
-
 /-! ### `_storage_update`, case by case -/
 
-theorem Stored_frame {t t' : Sqlite.Table Val} {g g' : List Nat} {j : Nat} {e : Entry}
-    (h : Stored t g j e) (h1 : j ∈ g → j ∈ g') (h2 : j ∉ g → j ∉ g')
-    (h3 : ∀ kj, j ∉ g → e.storageId = some kj → Sqlite.abs t' tag kj = Sqlite.abs t tag kj) : Stored t' g' j e := by
+theorem Stored_frame {t t' : Sqlite.Table Val} {e : Entry} (h : Stored t e)
+    (h3 : ∀ kj, e.storageId = some kj → Sqlite.abs t' tag kj = Sqlite.abs t tag kj) : Stored t' e := by
   unfold Stored at h ⊢
-  by_cases hj : j ∈ g
-  · rw [if_pos hj] at h; rw [if_pos (h1 hj)]; exact h
-  · rw [if_neg hj] at h; rw [if_neg (h2 hj)]
-    cases hs : e.storageId with
-    | none => simpa [hs] using h
-    | some k =>
-      simp only [hs] at h ⊢
-      obtain ⟨a, row, b, c⟩ := h
-      exact ⟨a, row, b, by rw [h3 k hj hs]; exact c⟩
+  cases hs : e.storageId with
+  | none => simpa [hs] using h
+  | some k =>
+    simp only [hs] at h ⊢
+    obtain ⟨a, row, b, c⟩ := h
+    exact ⟨a, row, b, by rw [h3 k hs]; exact c⟩
 
 theorem set_other {m : Spec.M Val} {k kj : Nat} {v : Option Val} (h : kj ≠ k) : Spec.set m tag k v tag kj = m tag kj := by
   simp [Spec.set, h]
@@ -151,86 +147,92 @@ theorem fresh_abs (t : Sqlite.Table Val) (tg : Tag) : Sqlite.abs t tg (Sqlite.ma
   simp only [Sqlite.abs, Option.map_eq_none_iff]
   exact Sqlite.find_none_of_fresh t tg _ (by omega)
 
-theorem InvP_weaken {done : List Nat} {i : Nat} {a : St} (h : InvP (i :: done) a) : InvP done a := by
-  obtain ⟨t, hs, hrest⟩ := h
-  refine ⟨t, hs, fun hb => ?_⟩
-  obtain ⟨hc, hst⟩ := hrest hb
-  exact ⟨hc, fun j e he hd => hst j e he (hd.imp id (List.mem_cons_of_mem _))⟩
+theorem InvP_mono {d1 d2 : List Nat} {a : St} (hsub : ∀ j, j ∈ d1 → j ∈ d2) (h : InvP d2 a) : InvP d1 a := by
+  obtain ⟨t, hs, hc, hst⟩ := h
+  exact ⟨t, hs, hc, fun j e he hd => hst j e he (hd.imp id (hsub j))⟩
 
-theorem row_sid (e : Entry) (v : Option Nat) : ({ e with storageId := v } : Entry).row = e.row := rfl
-theorem trash_sid (e : Entry) (v : Option Nat) : ({ e with storageId := v } : Entry).isTrash = e.isTrash := rfl
-
-
-/-- what the invariant says once `goneTouched = false` is known -/
-def InvBody (done : List Nat) (t : Sqlite.Table Val) (st : St) : Prop :=
-  st.store = .sqlite t ∧ Core t st ∧
-    ∀ i e, st.ents[i]? = some e → (i ∉ st.dirty ∨ i ∈ done) → i ∉ st.silent → Stored t st.gone i e
+theorem InvP_weaken {done : List Nat} {i : Nat} {a : St} (h : InvP (i :: done) a) : InvP done a :=
+  InvP_mono (fun j hj => List.mem_cons_of_mem _ hj) h
 
 theorem sidOf_of_ent {a : St} {i : Nat} {e : Entry} (h : a.ents[i]? = some e) : sidOf a i = some e.storageId := by
   simp [sidOf, h]
 
-/-- `_storage_update` deletes the row of a trash entry -/
+theorem sidOf_modify (a : St) (i j : Nat) (e : Entry) (v : Option Nat) (hei : a.ents[i]? = some e) :
+    ((a.ents.modify i fun x => { x with storageId := v })[j]?).map Entry.storageId =
+      if j = i then some v else sidOf a j := by
+  simp only [sidOf, List.getElem?_modify]
+  by_cases hji : i = j
+  · subst hji; simp [hei]
+  · have : ¬ j = i := fun c => hji c.symm
+    simp [hji, this]
+
+theorem not_done_of_ne {done : List Nat} {i j : Nat} {P : Prop} (hji : j ≠ i) (hd : P ∨ j ∈ i :: done) : P ∨ j ∈ done :=
+  hd.imp id (fun c => by
+    rcases List.mem_cons.1 c with c | c
+    · exact absurd c hji
+    · exact c)
+
+/-- `_storage_update` deletes the row of a trash entry and forgets its id -/
 theorem inv_delete (done : List Nat) (a : St) (t : Sqlite.Table Val) (h : InvBody done t a)
-    (i k : Nat) (e : Entry) (hei : a.ents[i]? = some e) (hk : e.storageId = some k) (hg : i ∉ a.gone) (ht : e.isTrash = true) :
-    InvBody (i :: done) (Sqlite.step t (.delete tag (some k))).1
-      { a with store := .sqlite (Sqlite.step t (.delete tag (some k))).1, gone := sadd a.gone i } := by
+    (i k : Nat) (e : Entry) (hei : a.ents[i]? = some e) (hk : e.storageId = some k) (ht : e.isTrash = true) :
+    InvBody (i :: done) (Sqlite.step t (.delete tag (some k))).1 (a.deleted t i k) := by
   obtain ⟨hs, hc, hst⟩ := h
   have habs : Sqlite.abs (Sqlite.step t (.delete tag (some k))).1 = Spec.set (Sqlite.abs t) tag k none :=
     Sqlite.abs_delete t tag k
   have hsi : sidOf a i = some (some k) := by rw [sidOf_of_ent hei, hk]
-  refine ⟨rfl, ⟨Sqlite.inv_step t _ hc.tinv, ?_, ?_, ?_, ?_⟩, ?_⟩
-  · intro j kj hj hgj
-    have hgj' : j ∉ a.gone := fun c => hgj (mem_sadd.2 (Or.inl c))
-    have hji : j ≠ i := fun c => hgj (mem_sadd.2 (Or.inr c))
-    have hne : kj ≠ k := fun c => hji (hc.uniq j i k (c ▸ hj) hsi hgj' hg)
-    rw [habs, set_other hne]
-    exact hc.owner j kj hj hgj'
-  · intro j1 j2 kj h1 h2 g1 g2
-    exact hc.uniq j1 j2 kj h1 h2 (fun c => g1 (mem_sadd.2 (Or.inl c))) (fun c => g2 (mem_sadd.2 (Or.inl c)))
+  have hsid : ∀ j, sidOf (a.deleted t i k) j = if j = i then some none else sidOf a j :=
+    fun j => sidOf_modify a i j e none hei
+  have hne : ∀ j kj, j ≠ i → sidOf a j = some (some kj) → kj ≠ k :=
+    fun j kj hji hj c => hji (hc.uniq j i k (c ▸ hj) hsi)
+  refine ⟨rfl, ⟨Sqlite.inv_step t _ hc.tinv, ?_, ?_, ?_⟩, ?_⟩
+  · intro j kj hj
+    rw [hsid] at hj
+    by_cases hji : j = i
+    · rw [if_pos hji] at hj; cases hj
+    · rw [if_neg hji] at hj
+      rw [habs, set_other (hne j kj hji hj)]
+      exact hc.owner j kj hj
+  · intro j1 j2 kj h1 h2
+    rw [hsid] at h1 h2
+    by_cases c1 : j1 = i
+    · rw [if_pos c1] at h1; cases h1
+    · by_cases c2 : j2 = i
+      · rw [if_pos c2] at h2; cases h2
+      · rw [if_neg c1] at h1; rw [if_neg c2] at h2; exact hc.uniq j1 j2 kj h1 h2
   · intro k' hk'
     rw [habs] at hk'
-    have hne : k' ≠ k := by
+    have hnek : k' ≠ k := by
       intro c; subst c; rw [set_same] at hk'; exact hk' rfl
-    rw [set_other hne] at hk'
-    obtain ⟨j, hj, hgj⟩ := hc.nostale k' hk'
-    refine ⟨j, hj, fun c => ?_⟩
-    rcases mem_sadd.1 c with c | c
-    · exact hgj c
-    · subst c; rw [hsi] at hj; injection hj with hj; injection hj with hj; exact hne hj.symm
-  · intro j hj
-    rcases mem_sadd.1 hj with c | c
-    · exact hc.goneSid j c
-    · subst c; exact ⟨k, hsi⟩
+    rw [set_other hnek] at hk'
+    obtain ⟨j, hj⟩ := hc.nostale k' hk'
+    have hji : j ≠ i := fun c => by
+      rw [c, hsi] at hj; injection hj with hj; injection hj with hj; exact hnek hj.symm
+    exact ⟨j, by rw [hsid, if_neg hji]; exact hj⟩
   · intro j ej hej hd hsil
+    have hej' : (a.ents.modify i fun x => { x with storageId := none })[j]? = some ej := hej
+    rw [List.getElem?_modify] at hej'
     by_cases hji : j = i
     · subst hji
-      have : ej = e := by rw [hei] at hej; injection hej with hej; exact hej.symm
-      subst this
+      simp [hei] at hej'
+      subst hej'
       unfold Stored
-      rw [if_pos (mem_sadd.2 (Or.inr rfl))]
       exact ht
-    · have hd' : j ∉ a.dirty ∨ j ∈ done := hd.imp id (fun c => by
-        rcases List.mem_cons.1 c with c | c
-        · exact absurd c hji
-        · exact c)
-      refine Stored_frame (hst j ej hej hd' hsil) (fun c => mem_sadd.2 (Or.inl c)) (fun c c' => ?_) ?_
-      · rcases mem_sadd.1 c' with c' | c'
-        · exact c c'
-        · exact hji c'
-      · intro kj hgj hkj
-        have hne : kj ≠ k := fun c => hji (hc.uniq j i k (by rw [sidOf_of_ent (a := a) hej, hkj, c]) hsi hgj hg)
-        rw [habs, set_other hne]
+    · have hij : ¬ i = j := fun c => hji c.symm
+      simp [hij] at hej'
+      refine Stored_frame (hst j ej hej' (not_done_of_ne hji hd) hsil) ?_
+      intro kj hkj
+      rw [habs, set_other (hne j kj hji (by rw [sidOf_of_ent hej', hkj]))]
 
-/-- `_storage_update` rewrites the row of a live entry -/
+/-- `_storage_update` rewrites the row of a live entry: the row exists, so `update` cannot raise -/
 theorem inv_update (done : List Nat) (a : St) (t : Sqlite.Table Val) (h : InvBody done t a)
-    (i k : Nat) (e : Entry) (row : Val) (hei : a.ents[i]? = some e) (hk : e.storageId = some k) (hg : i ∉ a.gone)
+    (i k : Nat) (e : Entry) (row : Val) (hei : a.ents[i]? = some e) (hk : e.storageId = some k)
     (ht : e.isTrash = false) (hr : e.row = .ok row) :
     (Sqlite.step t (.update tag row (some k))).2 = .count 1 ∧
     InvBody (i :: done) (Sqlite.step t (.update tag row (some k))).1
       { a with store := .sqlite (Sqlite.step t (.update tag row (some k))).1 } := by
   obtain ⟨hs, hc, hst⟩ := h
   have hsi : sidOf a i = some (some k) := by rw [sidOf_of_ent hei, hk]
-  have hex : Sqlite.abs t tag k ≠ none := hc.owner i k hsi hg
+  have hex : Sqlite.abs t tag k ≠ none := hc.owner i k hsi
   have hlen := Sqlite.filter_hits_length t hc.tinv tag k
   rw [if_neg hex] at hlen
   have hstep : Sqlite.step t (.update tag row (some k)) =
@@ -238,42 +240,30 @@ theorem inv_update (done : List Nat) (a : St) (t : Sqlite.Table Val) (h : InvBod
     simp [Sqlite.step, hlen]
   have habs : Sqlite.abs (Sqlite.step t (.update tag row (some k))).1 = Spec.set (Sqlite.abs t) tag k (some row) := by
     rw [hstep]; exact Sqlite.abs_update t tag k row hex
-  refine ⟨by rw [hstep], rfl, ⟨Sqlite.inv_step t _ hc.tinv, ?_, ?_, ?_, ?_⟩, ?_⟩
-  · intro j kj hj hgj
+  refine ⟨by rw [hstep], rfl, ⟨Sqlite.inv_step t _ hc.tinv, ?_, ?_, ?_⟩, ?_⟩
+  · intro j kj hj
     rw [habs]
     by_cases hne : kj = k
     · subst hne; rw [set_same]; simp
-    · rw [set_other hne]; exact hc.owner j kj hj hgj
+    · rw [set_other hne]; exact hc.owner j kj hj
   · exact hc.uniq
   · intro k' hk'
     rw [habs] at hk'
     by_cases hne : k' = k
-    · subst hne; exact ⟨i, hsi, hg⟩
+    · subst hne; exact ⟨i, hsi⟩
     · rw [set_other hne] at hk'; exact hc.nostale k' hk'
-  · exact hc.goneSid
   · intro j ej hej hd hsil
     by_cases hji : j = i
     · subst hji
       have : ej = e := by rw [hei] at hej; injection hej with hej; exact hej.symm
       subst this
       unfold Stored
-      rw [if_neg hg]
       simp only [hk]
       exact ⟨ht, row, hr, by rw [habs, set_same]⟩
-    · have hd' : j ∉ a.dirty ∨ j ∈ done := hd.imp id (fun c => by
-        rcases List.mem_cons.1 c with c | c
-        · exact absurd c hji
-        · exact c)
-      refine Stored_frame (hst j ej hej hd' hsil) id id ?_
-      intro kj hgj hkj
-      have hne : kj ≠ k := fun c => hji (hc.uniq j i k (by rw [sidOf_of_ent (a := a) hej, hkj, c]) hsi hgj hg)
+    · refine Stored_frame (hst j ej hej (not_done_of_ne hji hd) hsil) ?_
+      intro kj hkj
+      have hne : kj ≠ k := fun c => hji (hc.uniq j i k (by rw [sidOf_of_ent (a := a) hej, hkj, c]) hsi)
       rw [habs, set_other hne]
-
-/-- the state after `_storage_update` created a row for entry `i` -/
-def St.created (a : St) (t : Sqlite.Table Val) (i : Nat) (row : Val) : St :=
-  { a with store := .sqlite (t ++ [{ id := Sqlite.maxId t + 1, tag := tag, val := row }]),
-           dirty := sadd a.dirty i, silent := sdiscard a.silent i,
-           ents := a.ents.modify i fun x => { x with storageId := some (Sqlite.maxId t + 1) } }
 
 /-- `_storage_update` creates the row of a live entry that has none, and records the new id -/
 theorem inv_create (done : List Nat) (a : St) (t : Sqlite.Table Val) (h : InvBody done t a)
@@ -284,174 +274,127 @@ theorem inv_create (done : List Nat) (a : St) (t : Sqlite.Table Val) (h : InvBod
   have habs := Sqlite.abs_create t tag row
   have hfresh := fresh_abs t tag
   have hsi : sidOf a i = some none := by rw [sidOf_of_ent hei, hk]
-  have hgi : i ∉ a.gone := fun c => by
-    obtain ⟨k, hk'⟩ := hc.goneSid i c; rw [hsi] at hk'; cases hk'
-  have hil : i < a.ents.length := by
-    rcases Nat.lt_or_ge i a.ents.length with c | c
-    · exact c
-    · rw [List.getElem?_eq_none c] at hei; cases hei
-  -- storage ids after the write
   have hsid : ∀ j, sidOf (a.created t i row) j =
-      if j = i then some (some (Sqlite.maxId t + 1)) else sidOf a j := by
-    intro j
-    simp only [sidOf, St.created, List.getElem?_modify]
-    by_cases hji : i = j
-    · subst hji; simp [hei]
-    · have : ¬ j = i := fun c => hji c.symm
-      simp [hji, this]
-  have hold : ∀ j kj, sidOf a j = some (some kj) → j ∉ a.gone → kj ≠ Sqlite.maxId t + 1 := by
-    intro j kj hj hgj c
-    exact hc.owner j kj hj hgj (c ▸ hfresh)
-  refine ⟨rfl, ⟨?_, ?_, ?_, ?_, ?_⟩, ?_⟩
+      if j = i then some (some (Sqlite.maxId t + 1)) else sidOf a j :=
+    fun j => sidOf_modify a i j e _ hei
+  have hold : ∀ j kj, sidOf a j = some (some kj) → kj ≠ Sqlite.maxId t + 1 := by
+    intro j kj hj c
+    exact hc.owner j kj hj (c ▸ hfresh)
+  refine ⟨rfl, ⟨?_, ?_, ?_, ?_⟩, ?_⟩
   · exact Sqlite.inv_step t (.create tag row) hc.tinv
-  · intro j kj hj hgj
+  · intro j kj hj
     rw [hsid] at hj
     rw [habs]
     by_cases hji : j = i
     · rw [if_pos hji] at hj; injection hj with hj; injection hj with hj; subst hj; rw [set_same]; simp
     · rw [if_neg hji] at hj
-      rw [set_other (hold j kj hj hgj)]; exact hc.owner j kj hj hgj
-  · intro j1 j2 kj h1 h2 g1 g2
+      rw [set_other (hold j kj hj)]; exact hc.owner j kj hj
+  · intro j1 j2 kj h1 h2
     rw [hsid] at h1 h2
     by_cases c1 : j1 = i <;> by_cases c2 : j2 = i
     · rw [c1, c2]
     · rw [if_pos c1] at h1; rw [if_neg c2] at h2
       injection h1 with h1; injection h1 with h1
-      exact absurd h1.symm (hold j2 kj h2 g2)
+      exact absurd h1.symm (hold j2 kj h2)
     · rw [if_neg c1] at h1; rw [if_pos c2] at h2
       injection h2 with h2; injection h2 with h2
-      exact absurd h2.symm (hold j1 kj h1 g1)
-    · rw [if_neg c1] at h1; rw [if_neg c2] at h2; exact hc.uniq j1 j2 kj h1 h2 g1 g2
+      exact absurd h2.symm (hold j1 kj h1)
+    · rw [if_neg c1] at h1; rw [if_neg c2] at h2; exact hc.uniq j1 j2 kj h1 h2
   · intro k' hk'
     rw [habs] at hk'
     by_cases hne : k' = Sqlite.maxId t + 1
-    · refine ⟨i, ?_, hgi⟩; rw [hsid, if_pos rfl, hne]
+    · refine ⟨i, ?_⟩; rw [hsid, if_pos rfl, hne]
     · rw [set_other hne] at hk'
-      obtain ⟨j, hj, hgj⟩ := hc.nostale k' hk'
+      obtain ⟨j, hj⟩ := hc.nostale k' hk'
       have hji : j ≠ i := fun c => by rw [c, hsi] at hj; cases hj
-      exact ⟨j, by rw [hsid, if_neg hji]; exact hj, hgj⟩
-  · intro j hj
-    obtain ⟨k, hk'⟩ := hc.goneSid j hj
-    have hji : j ≠ i := fun c => hgi (c ▸ hj)
-    exact ⟨k, by rw [hsid, if_neg hji]; exact hk'⟩
+      exact ⟨j, by rw [hsid, if_neg hji]; exact hj⟩
   · intro j ej hej hd hsil
+    have hej' : (a.ents.modify i fun x => { x with storageId := some (Sqlite.maxId t + 1) })[j]? = some ej := hej
+    rw [List.getElem?_modify] at hej'
     by_cases hji : j = i
     · subst hji
-      have hej' : (a.ents.modify j fun x => { x with storageId := some (Sqlite.maxId t + 1) })[j]? = some ej := hej
-      rw [List.getElem?_modify] at hej'
       simp [hei] at hej'
       subst hej'
-      have hgi' : j ∉ (a.created t j row).gone := hgi
       unfold Stored
-      rw [if_neg hgi']
       exact ⟨ht, row, hr, by rw [habs, set_same]⟩
-    · have hej' : (a.ents.modify i fun x => { x with storageId := some (Sqlite.maxId t + 1) })[j]? = some ej := hej
-      rw [List.getElem?_modify] at hej'
-      have hij : ¬ i = j := fun c => hji c.symm
+    · have hij : ¬ i = j := fun c => hji c.symm
       simp [hij] at hej'
       have hd' : j ∉ a.dirty ∨ j ∈ done := by
         rcases hd with c | c
         · exact Or.inl (fun c' => c (mem_sadd.2 (Or.inl c')))
-        · rcases List.mem_cons.1 c with c | c
-          · exact absurd c hji
-          · exact Or.inr c
+        · exact not_done_of_ne hji (Or.inr c)
       have hsil' : j ∉ a.silent := fun c => hsil (mem_sdiscard.2 ⟨c, hji⟩)
-      refine Stored_frame (hst j ej hej' hd' hsil') id id ?_
-      intro kj hgj hkj
-      rw [habs, set_other (hold j kj (by rw [sidOf_of_ent hej', hkj]) hgj)]
-
-theorem InvP_of_body {done : List Nat} {t : Sqlite.Table Val} {a : St} (h : InvBody done t a) : InvP done a :=
-  ⟨t, h.1, fun _ => h.2⟩
+      refine Stored_frame (hst j ej hej' hd' hsil') ?_
+      intro kj hkj
+      rw [habs, set_other (hold j kj (by rw [sidOf_of_ent hej', hkj]))]
 
 theorem at_of_some {a : St} {i : Nat} {e : Entry} (h : a.ents[i]? = some e) : a.at i = e := by simp [St.at, h]
 theorem at_of_none {a : St} {i : Nat} (h : a.ents[i]? = none) : a.at i = placeholder := by simp [St.at, h]
 
+/-- the only way `_storage_update` can fail -/
+def SuResult (r : Except HErr Unit) : Prop := r = .ok () ∨ r = .error (.py .overflow)
+
 /-- one `_storage_update`: on a normal return the entry is stored exactly and everything else stays as
-    it was; on an exception nothing that was stored is disturbed -/
+    it was; the only possible exception is the OverflowError of `serialize`, and then nothing that was
+    stored is disturbed -/
 theorem su_inv (done : List Nat) (a : St) (h : InvP done a) (i : Nat) (hi : i ∈ a.dirty) :
     ((storageUpdate i a).1 = .ok () → InvP (i :: done) (storageUpdate i a).2) ∧ InvP done (storageUpdate i a).2 ∧
-    (storageUpdate i a).2.dirty = a.dirty := by
-  obtain ⟨t, hs, hrest⟩ := h
-  -- the case "nothing happens, normal return": the entry is trash and has no row
-  have hnoop : ∀ e, a.at i = e → e.storageId = none → e.isTrash = true → (a.ents[i]? = none ∨ a.ents[i]? = some e) →
+    (storageUpdate i a).2.dirty = a.dirty ∧ SuResult (storageUpdate i a).1 := by
+  obtain ⟨t, hs, hc, hst⟩ := h
+  have hnoop : ∀ e, e.storageId = none → e.isTrash = true → (a.ents[i]? = none ∨ a.ents[i]? = some e) →
       InvP (i :: done) a := by
-    intro e hat hk ht hopt
-    refine ⟨t, hs, fun hb => ?_⟩
-    obtain ⟨hc, hst⟩ := hrest hb
-    refine ⟨hc, fun j ej hej hd hsil => ?_⟩
+    intro e hk ht hopt
+    refine ⟨t, hs, hc, fun j ej hej hd hsil => ?_⟩
     by_cases hji : j = i
     · subst hji
       rcases hopt with hopt | hopt
       · rw [hopt] at hej; cases hej
       · rw [hopt] at hej; injection hej with hej; subst hej
-        have hgi : j ∉ a.gone := fun c => by
-          obtain ⟨k, hk'⟩ := hc.goneSid j c
-          rw [sidOf_of_ent hopt, hk] at hk'; cases hk'
-        unfold Stored; rw [if_neg hgi]; simp only [hk]; exact ht
-    · exact hst j ej hej (hd.imp id (fun c => by
-        rcases List.mem_cons.1 c with c | c
-        · exact absurd c hji
-        · exact c)) hsil
+        unfold Stored; simp only [hk]; exact ht
+    · exact hst j ej hej (not_done_of_ne hji hd) hsil
   rcases hopt : a.ents[i]? with _ | e
   · have hat := at_of_none hopt
     have hk : (a.at i).storageId = none := by rw [hat]; rfl
     have ht : (a.at i).isTrash = true := by rw [hat]; rfl
     rw [su_none_trash a i hk ht]
-    have := hnoop _ rfl hk ht (Or.inl hopt)
-    exact ⟨fun _ => this, InvP_weaken this, rfl⟩
+    have := hnoop _ hk ht (Or.inl hopt)
+    exact ⟨fun _ => this, InvP_weaken this, rfl, Or.inl rfl⟩
   · have hat := at_of_some hopt
     cases hk : e.storageId with
     | none =>
       cases ht : e.isTrash with
       | true =>
         rw [su_none_trash a i (by rw [hat]; exact hk) (by rw [hat]; exact ht)]
-        have := hnoop e hat hk ht (Or.inr hopt)
-        exact ⟨fun _ => this, InvP_weaken this, rfl⟩
+        have := hnoop e hk ht (Or.inr hopt)
+        exact ⟨fun _ => this, InvP_weaken this, rfl, Or.inl rfl⟩
       | false =>
         cases hr : e.row with
         | error err =>
           rw [su_none_rowerr a i err (by rw [hat]; exact hk) (by rw [hat]; exact ht) (by rw [hat]; exact hr)]
-          exact ⟨(fun c => by cases c), ⟨t, hs, hrest⟩, rfl⟩
+          exact ⟨(fun c => by cases c), ⟨t, hs, hc, hst⟩, rfl, Or.inr (by rw [row_error e err hr])⟩
         | ok row =>
           rw [su_none_create a t hs i row (by rw [hat]; exact hk) (by rw [hat]; exact ht) (by rw [hat]; exact hr)]
-          have hP : InvP (i :: done) (a.created t i row) := by
-            refine ⟨_, rfl, fun hb => ?_⟩
-            obtain ⟨hc, hst⟩ := hrest hb
-            exact (inv_create done a t ⟨hs, hc, hst⟩ i e row hopt hk ht hr).2
-          refine ⟨fun _ => hP, InvP_weaken hP, ?_⟩
+          have hP : InvP (i :: done) (a.created t i row) := ⟨_, inv_create done a t ⟨hs, hc, hst⟩ i e row hopt hk ht hr⟩
+          refine ⟨fun _ => hP, InvP_weaken hP, ?_, Or.inl rfl⟩
           show sadd a.dirty i = a.dirty
           simp [sadd, hi]
     | some k =>
-      by_cases hg : i ∈ a.gone
-      · obtain ⟨h1, h2, t', h3⟩ := su_touched a t hs i k (by rw [hat]; exact hk) hg
-        have hv : ∀ d, InvP d (storageUpdate i a).2 := fun d => ⟨t', h3, fun hb => by rw [h1] at hb; cases hb⟩
-        exact ⟨fun _ => hv _, hv _, h2⟩
-      · cases ht : e.isTrash with
-        | true =>
-          rw [su_some_trash a t hs i k (by rw [hat]; exact hk) hg (by rw [hat]; exact ht)]
-          have hP : InvP (i :: done) { a with store := .sqlite (Sqlite.step t (.delete tag (some k))).1, gone := sadd a.gone i } := by
-            refine ⟨_, rfl, fun hb => ?_⟩
-            obtain ⟨hc, hst⟩ := hrest hb
-            exact (inv_delete done a t ⟨hs, hc, hst⟩ i k e hopt hk hg ht).2
-          exact ⟨fun _ => hP, InvP_weaken hP, rfl⟩
-        | false =>
-          cases hr : e.row with
-          | error err =>
-            rw [su_some_rowerr a i k err (by rw [hat]; exact hk) hg (by rw [hat]; exact ht) (by rw [hat]; exact hr)]
-            exact ⟨(fun c => by cases c), ⟨t, hs, hrest⟩, rfl⟩
-          | ok row =>
-            rw [su_some_update a t hs i k row (by rw [hat]; exact hk) hg (by rw [hat]; exact ht) (by rw [hat]; exact hr)]
-            have hP : InvP (i :: done) { a with store := .sqlite (Sqlite.step t (.update tag row (some k))).1 } := by
-              refine ⟨_, rfl, fun hb => ?_⟩
-              obtain ⟨hc, hst⟩ := hrest hb
-              exact (inv_update done a t ⟨hs, hc, hst⟩ i k e row hopt hk hg ht hr).2.2
-            exact ⟨fun _ => hP, InvP_weaken hP, rfl⟩
-
-theorem InvP_mono {d1 d2 : List Nat} {a : St} (hsub : ∀ j, j ∈ d1 → j ∈ d2) (h : InvP d2 a) : InvP d1 a := by
-  obtain ⟨t, hs, hrest⟩ := h
-  refine ⟨t, hs, fun hb => ?_⟩
-  obtain ⟨hc, hst⟩ := hrest hb
-  exact ⟨hc, fun j e he hd => hst j e he (hd.imp id (hsub j))⟩
+      cases ht : e.isTrash with
+      | true =>
+        rw [su_some_trash a t hs i k (by rw [hat]; exact hk) (by rw [hat]; exact ht)]
+        have hP : InvP (i :: done) (a.deleted t i k) := ⟨_, inv_delete done a t ⟨hs, hc, hst⟩ i k e hopt hk ht⟩
+        exact ⟨fun _ => hP, InvP_weaken hP, rfl, Or.inl rfl⟩
+      | false =>
+        cases hr : e.row with
+        | error err =>
+          rw [su_some_rowerr a i k err (by rw [hat]; exact hk) (by rw [hat]; exact ht) (by rw [hat]; exact hr)]
+          exact ⟨(fun c => by cases c), ⟨t, hs, hc, hst⟩, rfl, Or.inr (by rw [row_error e err hr])⟩
+        | ok row =>
+          rw [su_some_update a t hs i k row (by rw [hat]; exact hk) (by rw [hat]; exact ht) (by rw [hat]; exact hr)]
+          obtain ⟨hcount, hbody⟩ := inv_update done a t ⟨hs, hc, hst⟩ i k e row hopt hk ht hr
+          have hP : InvP (i :: done) { a with store := .sqlite (Sqlite.step t (.update tag row (some k))).1 } := ⟨_, hbody⟩
+          refine ⟨fun _ => hP, InvP_weaken hP, rfl, Or.inl ?_⟩
+          rw [hcount]
 
 theorem forEach_cons {α} (x : α) (xs : List α) (f : α → M Unit) (a : St) :
     forEach (x :: xs) f a = (match f x a with
@@ -463,20 +406,21 @@ theorem forEach_cons {α} (x : α) (xs : List α) (f : α → M Unit) (a : St) :
 /-- the loop of `storage_commit` -/
 theorem forEach_su (l : List Nat) : ∀ (done : List Nat) (a : St), InvP done a → (∀ i ∈ l, i ∈ a.dirty) →
     InvP done (forEach l storageUpdate a).2 ∧ (forEach l storageUpdate a).2.dirty = a.dirty ∧
-    ((forEach l storageUpdate a).1 = .ok () → InvP (l ++ done) (forEach l storageUpdate a).2) := by
+    ((forEach l storageUpdate a).1 = .ok () → InvP (l ++ done) (forEach l storageUpdate a).2) ∧
+    SuResult (forEach l storageUpdate a).1 := by
   induction l with
-  | nil => intro done a h _; exact ⟨h, rfl, fun _ => h⟩
+  | nil => intro done a h _; exact ⟨h, rfl, fun _ => h, Or.inl rfl⟩
   | cons x xs ih =>
     intro done a h hl
-    obtain ⟨h1, h2, h3⟩ := su_inv done a h x (hl x (List.mem_cons_self))
+    obtain ⟨h1, h2, h3, h4⟩ := su_inv done a h x (hl x (List.mem_cons_self))
     rw [forEach_cons]
     rcases hm : storageUpdate x a with ⟨r | r, s'⟩
-    · simp only [hm] at h1 h2 h3 ⊢
-      exact ⟨h2, h3, fun c => by cases c⟩
+    · simp only [hm] at h1 h2 h3 h4 ⊢
+      exact ⟨h2, h3, (fun c => by cases c), h4⟩
     · simp only [hm] at h1 h2 h3 ⊢
       have hl' : ∀ i ∈ xs, i ∈ s'.dirty := fun i hi => by rw [h3]; exact hl i (List.mem_cons_of_mem _ hi)
-      obtain ⟨g1, g2, g3⟩ := ih (x :: done) s' (h1 trivial) hl'
-      refine ⟨InvP_weaken g1, g2.trans h3, fun c => ?_⟩
+      obtain ⟨g1, g2, g3, g4⟩ := ih (x :: done) s' (h1 trivial) hl'
+      refine ⟨InvP_weaken g1, g2.trans h3, fun c => ?_, g4⟩
       refine InvP_mono (fun j hj => ?_) (g3 c)
       simp only [List.cons_append, List.mem_cons, List.mem_append] at hj ⊢
       rcases hj with hj | hj | hj
@@ -490,20 +434,20 @@ theorem storageCommit_eq (a : St) : storageCommit a = (match forEach a.dirty sto
   simp only [storageCommit, bind_run, getSt, modSt]
   rcases forEach a.dirty storageUpdate a with ⟨r | r, s'⟩ <;> rfl
 
-/-- **`storage_commit` keeps the invariant**; after a normal return the dirty set is empty -/
+/-- **`storage_commit` keeps the invariant**; after a normal return the dirty set is empty; the only
+    exception it can raise is the OverflowError of `serialize` (never the ValueError of `update`) -/
 theorem Inv_commit (a : St) (h : Inv a) :
-    Inv (storageCommit a).2 ∧ ((storageCommit a).1 = .ok () → (storageCommit a).2.dirty = []) := by
-  obtain ⟨h1, h2, h3⟩ := forEach_su a.dirty [] a h (fun _ hi => hi)
+    Inv (storageCommit a).2 ∧ ((storageCommit a).1 = .ok () → (storageCommit a).2.dirty = []) ∧
+    SuResult (storageCommit a).1 := by
+  obtain ⟨h1, h2, h3, h4⟩ := forEach_su a.dirty [] a h (fun _ hi => hi)
   rw [storageCommit_eq]
   rcases hm : forEach a.dirty storageUpdate a with ⟨r | r, s'⟩
-  · simp only [hm] at h1 ⊢
-    exact ⟨h1, fun c => by cases c⟩
+  · simp only [hm] at h1 h4 ⊢
+    exact ⟨h1, (fun c => by cases c), h4⟩
   · simp only [hm] at h2 h3 ⊢
-    refine ⟨?_, fun _ => trivial⟩
-    obtain ⟨t, hs, hrest⟩ := h3 trivial
-    refine ⟨t, hs, fun hb => ?_⟩
-    obtain ⟨hc, hst⟩ := hrest hb
-    refine ⟨⟨hc.tinv, hc.owner, hc.uniq, hc.nostale, hc.goneSid⟩, fun j e he _ hsil => ?_⟩
+    refine ⟨?_, fun _ => trivial, Or.inl rfl⟩
+    obtain ⟨t, hs, hc, hst⟩ := h3 trivial
+    refine ⟨t, hs, ⟨hc.tinv, hc.owner, hc.uniq, hc.nostale⟩, fun j e he _ hsil => ?_⟩
     refine hst j e he ?_ hsil
     by_cases c : j ∈ s'.dirty
     · right; rw [h2] at c; simpa using c
@@ -513,9 +457,7 @@ theorem fresh_isTrash (o : OType) : (Entry.fresh o).isTrash = true := rfl
 
 /-- `SyncEntry(state, otype)` keeps the invariant: a fresh entry is trash and has no row -/
 theorem Inv_newEntry (a : St) (o : OType) (h : Inv a) : Inv (newEntry o a).2 := by
-  obtain ⟨t, hs, hrest⟩ := h
-  refine ⟨t, hs, fun hb => ?_⟩
-  obtain ⟨hc, hst⟩ := hrest hb
+  obtain ⟨t, hs, hc, hst⟩ := h
   have hents : (newEntry o a).2.ents = a.ents ++ [Entry.fresh o] := rfl
   have hsid : ∀ j k, sidOf (newEntry o a).2 j = some (some k) ↔ sidOf a j = some (some k) := by
     intro j k
@@ -524,11 +466,10 @@ theorem Inv_newEntry (a : St) (o : OType) (h : Inv a) : Inv (newEntry o a).2 := 
     · rw [List.getElem?_append_left c]
     · subst c; simp [Entry.fresh]
     · rw [List.getElem?_eq_none (by simp; omega), List.getElem?_eq_none (by omega)]
-  refine ⟨⟨hc.tinv, ?_, ?_, ?_, ?_⟩, ?_⟩
-  · intro j k hj hg; exact hc.owner j k ((hsid j k).1 hj) hg
-  · intro i j k hi hj gi gj; exact hc.uniq i j k ((hsid i k).1 hi) ((hsid j k).1 hj) gi gj
-  · intro k hk; obtain ⟨j, hj, hg⟩ := hc.nostale k hk; exact ⟨j, (hsid j k).2 hj, hg⟩
-  · intro j hj; obtain ⟨k, hk⟩ := hc.goneSid j hj; exact ⟨k, (hsid j k).2 hk⟩
+  refine ⟨t, hs, ⟨hc.tinv, ?_, ?_, ?_⟩, ?_⟩
+  · intro j k hj; exact hc.owner j k ((hsid j k).1 hj)
+  · intro i j k hi hj; exact hc.uniq i j k ((hsid i k).1 hi) ((hsid j k).1 hj)
+  · intro k hk; obtain ⟨j, hj⟩ := hc.nostale k hk; exact ⟨j, (hsid j k).2 hj⟩
   · intro j e he hd hsil
     have he' : (a.ents ++ [Entry.fresh o])[j]? = some e := he
     rcases Nat.lt_trichotomy j a.ents.length with c | c | c
@@ -537,12 +478,6 @@ theorem Inv_newEntry (a : St) (o : OType) (h : Inv a) : Inv (newEntry o a).2 := 
     · subst c
       simp at he'
       subst he'
-      have hg : a.ents.length ∉ a.gone := fun g => by
-        obtain ⟨k, hk⟩ := hc.goneSid _ g
-        simp [sidOf] at hk
-      show Stored t a.gone a.ents.length (Entry.fresh o)
-      unfold Stored
-      rw [if_neg hg]
       rfl
     · rw [List.getElem?_eq_none (by simp; omega)] at he'; cases he'
 
@@ -558,92 +493,121 @@ theorem Inv_run (ops : List Op) : ∀ (a : St), Inv a → Inv (run a ops) := by
   | nil => intro a h; exact h
   | cons op ops ih => intro a h; exact ih _ (Inv_step a op h)
 
-
 /-! ### the loader -/
 
-theorem pyEq_str_right (k : Val) (s : String) : k.pyEq (.str s) = true ↔ k = .str s := by
-  cases k <;> simp [Val.pyEq, Val.beq_iff]
+/-- a key whose dict equality is plain equality (None and strings: no `1 == True` aliasing) -/
+def SimpleKey (q : Val) : Prop := ∀ k : Val, (k.pyEq q = true ↔ k = q) ∧ (q.pyEq k = true ↔ k = q)
 
-theorem pyEq_str_left (k : Val) (s : String) : (Val.str s).pyEq k = true ↔ k = .str s := by
-  have : (Val.str s).pyEq k = (Val.str s == k) := by cases k <;> rfl
-  rw [this, Val.beq_iff]
-  exact eq_comm
+theorem simpleKey_str (s : String) : SimpleKey (.str s) := by
+  intro k
+  constructor
+  · cases k <;> simp [Val.pyEq, Val.beq_iff]
+  · have : (Val.str s).pyEq k = (Val.str s == k) := by cases k <;> rfl
+    rw [this, Val.beq_iff]
+    exact eq_comm
 
-theorem pyEq_str_self (s : String) : (Val.str s).pyEq (.str s) = true := (pyEq_str_right _ s).2 rfl
+theorem simpleKey_nil : SimpleKey .nil := by
+  intro k
+  constructor
+  · cases k <;> simp [Val.pyEq, Val.beq_iff]
+  · have : (Val.nil).pyEq k = (Val.nil == k) := by cases k <;> rfl
+    rw [this, Val.beq_iff]
+    exact eq_comm
 
-theorem dget_dset_same {β} (d : Dict β) (v : β) (s : String) : dget (dset d (.str s) v) (.str s) = some v := by
+theorem dget_dset_same {β} (d : Dict β) (v : β) (q : Val) (hq : SimpleKey q) : dget (dset d q v) q = some v := by
+  have hqq : q.pyEq q = true := ((hq q).1).2 rfl
   induction d with
-  | nil => simp [dset, dget, pyEq_str_self]
+  | nil => simp [dset, dget, hqq]
   | cons a r ih =>
     obtain ⟨l, w⟩ := a
-    by_cases hl : l.pyEq (.str s) = true
+    by_cases hl : l.pyEq q = true
     · simp [dset, dget, hl]
     · simp [dset, dget, hl, ih]
 
-theorem dget_dset_other {β} (d : Dict β) (k : Val) (v : β) (s : String) (hk : k ≠ .str s) :
-    dget (dset d k v) (.str s) = dget d (.str s) := by
+theorem dget_dset_other {β} (d : Dict β) (k : Val) (v : β) (q : Val) (hq : SimpleKey q) (hk : k ≠ q) :
+    dget (dset d k v) q = dget d q := by
   induction d with
   | nil =>
-    have : k.pyEq (.str s) = false := by
-      cases hh : k.pyEq (.str s)
+    have : k.pyEq q = false := by
+      cases hh : k.pyEq q
       · rfl
-      · exact absurd ((pyEq_str_right k s).1 hh) hk
+      · exact absurd (((hq k).1).1 hh) hk
     simp [dset, dget, this]
   | cons a r ih =>
     obtain ⟨l, w⟩ := a
     by_cases hlk : l.pyEq k = true
-    · have hls : l.pyEq (.str s) = false := by
-        cases hh : l.pyEq (.str s)
+    · have hls : l.pyEq q = false := by
+        cases hh : l.pyEq q
         · rfl
-        · have hl := (pyEq_str_right l s).1 hh
+        · have hl := ((hq l).1).1 hh
           subst hl
-          exact absurd ((pyEq_str_left k s).1 hlk) hk
+          exact absurd (((hq k).2).1 hlk) hk
       simp [dset, dget, hlk, hls]
-    · by_cases hls : l.pyEq (.str s) = true
+    · by_cases hls : l.pyEq q = true
       · simp [dset, dget, hlk, hls]
       · simp [dset, dget, hlk, hls, ih]
 
-theorem dget_dset_str {β} (d : Dict β) (k : Val) (v : β) (s : String) :
-    dget (dset d k v) (.str s) = if k = .str s then some v else dget d (.str s) := by
-  by_cases h : k = .str s
-  · subst h; simp [dget_dset_same]
-  · simp [h, dget_dset_other d k v s h]
+theorem dget_dset_simple {β} (d : Dict β) (k : Val) (v : β) (q : Val) (hq : SimpleKey q) :
+    dget (dset d k v) q = if k = q then some v else dget d q := by
+  by_cases h : k = q
+  · subst h; simp [dget_dset_same _ _ _ hq]
+  · simp [h, dget_dset_other d k v q hq h]
 
-/-- has a truthy change stamp on some side (state.py:738) -/
-def _root_.CS.Codec.Entry.stamped (e : Entry) : Bool := e.s0.changed.truthy || e.s1.changed.truthy
+/-- pending by the loader's rule: a truthy change stamp on a side that has an id -/
+def _root_.CS.Codec.Entry.pendingOnLoad (e : Entry) : Bool :=
+  (!e.s0.oid.isNone && e.s0.changed.truthy) || (!e.s1.oid.isNone && e.s1.changed.truthy)
 
-/-- what the loader has built so far, as far as string keys and the pending set are concerned -/
+/-- what the loader has built so far, as far as None / string keys and the pending set are concerned -/
 structure Loaded (st : St) : Prop where
   sound : ∀ (sd : Sd) (s : String) (i : Nat), dget (st.ix sd).oids (.str s) = some i →
     ∃ e, st.ents[i]? = some e ∧ (e.side sd).oid = .str s
   complete : ∀ (sd : Sd) (s : String) (i : Nat) (e : Entry), st.ents[i]? = some e → (e.side sd).oid = .str s →
     ∃ j, dget (st.ix sd).oids (.str s) = some j ∧ i ≤ j
-  pending : ∀ i, i ∈ st.changeset ↔ ∃ e, st.ents[i]? = some e ∧ e.stamped = true
+  noneAbsent : ∀ (sd : Sd), dget (st.ix sd).oids .nil = none ∧ dget (st.ix sd).paths .nil = none
+  pending : ∀ i, i ∈ st.changeset ↔ ∃ e, st.ents[i]? = some e ∧ e.pendingOnLoad = true
 
 theorem Loaded_init (b : Backend) : Loaded (St.init b) := by
-  refine ⟨?_, ?_, ?_⟩
+  refine ⟨?_, ?_, ?_, ?_⟩
   · intro sd s i h; cases sd <;> simp [St.init, St.ix, dget] at h
   · intro sd s i e h; simp [St.init] at h
+  · intro sd; cases sd <;> simp [St.init, St.ix, dget]
   · intro i; simp [St.init]
 
 theorem indexLoaded_ents (st : St) (i : Nat) (e : Entry) : (indexLoaded st i e).ents = st.ents := by
   simp only [indexLoaded]
-  cases h0 : (e.side false).changed.truthy <;> cases h1 : (e.side true).changed.truthy <;>
-    simp [St.setIx, St.ix, h0, h1]
+  cases (e.side false).oid.isNone <;> cases (e.side true).oid.isNone <;>
+  cases (e.side false).changed.truthy <;> cases (e.side true).changed.truthy <;>
+    simp [St.setIx, St.ix]
 
 theorem indexLoaded_oids (st : St) (i : Nat) (e : Entry) (sd : Sd) :
-    ((indexLoaded st i e).ix sd).oids = dset (st.ix sd).oids (e.side sd).oid i := by
+    ((indexLoaded st i e).ix sd).oids =
+      if (e.side sd).oid.isNone then (st.ix sd).oids else dset (st.ix sd).oids (e.side sd).oid i := by
   simp only [indexLoaded]
-  cases sd <;> cases h0 : (e.side false).changed.truthy <;> cases h1 : (e.side true).changed.truthy <;>
-    simp [St.setIx, St.ix, h0, h1]
+  cases sd <;> cases (e.side false).oid.isNone <;> cases (e.side true).oid.isNone <;>
+  cases (e.side false).changed.truthy <;> cases (e.side true).changed.truthy <;>
+    simp [St.setIx, St.ix]
+
+theorem indexLoaded_paths (st : St) (i : Nat) (e : Entry) (sd : Sd) :
+    ((indexLoaded st i e).ix sd).paths =
+      if (e.side sd).oid.isNone then (st.ix sd).paths
+      else if (e.side sd).path.truthy then
+        dset (st.ix sd).paths (e.side sd).path (dset ((dget (st.ix sd).paths (e.side sd).path).getD []) (e.side sd).oid i)
+      else (st.ix sd).paths := by
+  simp only [indexLoaded]
+  cases sd <;> cases (e.side false).oid.isNone <;> cases (e.side true).oid.isNone <;>
+  cases (e.side false).changed.truthy <;> cases (e.side true).changed.truthy <;>
+    simp [St.setIx, St.ix]
 
 theorem indexLoaded_changeset (st : St) (i : Nat) (e : Entry) (j : Nat) :
-    j ∈ (indexLoaded st i e).changeset ↔ j ∈ st.changeset ∨ (j = i ∧ e.stamped = true) := by
-  simp only [indexLoaded, Entry.stamped]
+    j ∈ (indexLoaded st i e).changeset ↔ j ∈ st.changeset ∨ (j = i ∧ e.pendingOnLoad = true) := by
+  simp only [indexLoaded, Entry.pendingOnLoad]
   have hs0 : (e.side false) = e.s0 := rfl
   have hs1 : (e.side true) = e.s1 := rfl
+  cases h2 : e.s0.oid.isNone <;> cases h3 : e.s1.oid.isNone <;>
   cases h0 : e.s0.changed.truthy <;> cases h1 : e.s1.changed.truthy <;>
-    simp [St.setIx, St.ix, hs0, hs1, h0, h1, mem_sadd]
+    simp [St.setIx, St.ix, hs0, hs1, h0, h1, h2, h3, mem_sadd]
+
+theorem isNone_iff (v : Val) : v.isNone = true ↔ v = .nil := by cases v <;> simp [Val.isNone]
 
 theorem Loaded_step (st : St) (e : Entry) (h : Loaded st) :
     Loaded (indexLoaded { st with ents := st.ents ++ [e] } st.ents.length e) := by
@@ -662,21 +626,31 @@ theorem Loaded_step (st : St) (e : Entry) (h : Loaded st) :
     · left; rw [List.getElem?_append_left c] at hx; exact hx
     · right; subst c; simp at hx; exact ⟨rfl, hx.symm⟩
     · rw [List.getElem?_eq_none (by simp; omega)] at hx; cases hx
-  refine ⟨?_, ?_, ?_⟩
+  have hix : ∀ sd, ({ st with ents := st.ents ++ [e] } : St).ix sd = st.ix sd := fun sd => by cases sd <;> rfl
+  -- the id index of side `sd` after the step, queried with a string
+  have hq : ∀ (sd : Sd) (s : String), dget ((indexLoaded { st with ents := st.ents ++ [e] } st.ents.length e).ix sd).oids (.str s) =
+      if (e.side sd).oid = .str s then some st.ents.length else dget (st.ix sd).oids (.str s) := by
+    intro sd s
+    rw [indexLoaded_oids, hix]
+    by_cases hn : (e.side sd).oid.isNone = true
+    · have : (e.side sd).oid ≠ .str s := fun c => by rw [c] at hn; cases hn
+      simp [hn, this]
+    · have hn' : (e.side sd).oid.isNone = false := by simpa using hn
+      simp only [hn', Bool.false_eq_true, if_false]
+      rw [dget_dset_simple _ _ _ _ (simpleKey_str s)]
+  refine ⟨?_, ?_, ?_, ?_⟩
   · intro sd s i hi
-    rw [indexLoaded_oids, dget_dset_str] at hi
+    rw [hq] at hi
     rw [hents]
-    have hix : ({ st with ents := st.ents ++ [e] } : St).ix sd = st.ix sd := by cases sd <;> rfl
     by_cases hk : (e.side sd).oid = .str s
     · rw [if_pos hk] at hi; injection hi with hi; subst hi
       exact ⟨e, hnew, hk⟩
-    · rw [if_neg hk, hix] at hi
+    · rw [if_neg hk] at hi
       obtain ⟨x, hx, ho⟩ := h.sound sd s i hi
       exact ⟨x, hold i x hx, ho⟩
   · intro sd s i x hx ho
     rw [hents] at hx
-    rw [indexLoaded_oids, dget_dset_str]
-    have hix : ({ st with ents := st.ents ++ [e] } : St).ix sd = st.ix sd := by cases sd <;> rfl
+    rw [hq]
     rcases hsplit i x hx with hx' | ⟨hi, hxe⟩
     · have hil : i < st.ents.length := by
         rcases Nat.lt_or_ge i st.ents.length with c | c
@@ -684,9 +658,23 @@ theorem Loaded_step (st : St) (e : Entry) (h : Loaded st) :
         · rw [List.getElem?_eq_none c] at hx'; cases hx'
       by_cases hk : (e.side sd).oid = .str s
       · rw [if_pos hk]; exact ⟨_, rfl, Nat.le_of_lt hil⟩
-      · rw [if_neg hk, hix]; exact h.complete sd s i x hx' ho
+      · rw [if_neg hk]; exact h.complete sd s i x hx' ho
     · subst hi; subst hxe
       rw [if_pos ho]; exact ⟨_, rfl, Nat.le_refl _⟩
+  · intro sd
+    rw [indexLoaded_oids, indexLoaded_paths, hix]
+    by_cases hn : (e.side sd).oid.isNone = true
+    · simp only [hn, if_true]; exact h.noneAbsent sd
+    · have hn' : (e.side sd).oid.isNone = false := by simpa using hn
+      simp only [hn', Bool.false_eq_true, if_false]
+      have hne : (e.side sd).oid ≠ .nil := fun c => hn ((isNone_iff _).2 c)
+      refine ⟨by rw [dget_dset_other _ _ _ _ simpleKey_nil hne]; exact (h.noneAbsent sd).1, ?_⟩
+      by_cases hp : (e.side sd).path.truthy = true
+      · have hpn : (e.side sd).path ≠ .nil := fun c => by rw [c] at hp; cases hp
+        simp only [hp, if_true]
+        rw [dget_dset_other _ _ _ _ simpleKey_nil hpn]; exact (h.noneAbsent sd).2
+      · have hp' : (e.side sd).path.truthy = false := by simpa using hp
+        simp only [hp', Bool.false_eq_true, if_false]; exact (h.noneAbsent sd).2
   · intro i
     rw [indexLoaded_changeset, hents]
     show (i ∈ st.changeset ∨ _) ↔ _
@@ -725,8 +713,7 @@ theorem loadRows_spec : ∀ (rows : List (Nat × Val)) (st : St), Loaded st →
       have h' : Loaded { st with store := (st.store.step (.delete tag (some eid))).1 } :=
         ⟨fun sd s i hi => h.sound sd s i (by cases sd <;> exact hi), fun sd s i e he ho => by
           obtain ⟨j, hj, hle⟩ := h.complete sd s i e he ho
-          exact ⟨j, by cases sd <;> exact hj, hle⟩, h.pending⟩
+          exact ⟨j, by cases sd <;> exact hj, hle⟩, fun sd => by cases sd <;> exact h.noneAbsent _, h.pending⟩
       exact loadRows_spec rest _ h'
-
 
 end CS.Persist
